@@ -2,12 +2,14 @@
 Layer B → Layer A for the full multi-object vocabulary (track `wabs`), part 3: what a `WOp` step does to
 the handle it NAMES and to the handle it CREATES, op by op.
 
-The calls that exist in the single-iovec vocabulary (`Woodpile.Iovec.Op`) are reduced to
-`Proofs/IovecAbs.step_refines` (`target_via_op`): the `WOp` step computes the same world as the `Op` step
-on handle `i` (up to the token table).  The others (`push_aslice`, sub-slice pushes, arena swap / take,
-`read_n` into the own arena, `new_from_slices`, `take`, `clone`, `drop`) are done here from the building
-blocks of `Proofs/IovecAbs.lean` / `IovecAnch.lean` (`Pushed`, `World.pushHeld_total`, `World.readN_spec`,
-`IovInv.set_arena`), the arena-swapping ones with the world-level arena invariant `ArenaInv.below`.
+The calls that exist in the single-iovec vocabulary (`Woodpile.Iovec.Op`) are reduced to `W.step_refines`
+(`Proofs/IovecXAbs.lean`: `step_refines` of C03 for the invariant `W.IovInv`) by `target_via_op`: the `WOp`
+step computes the same world as the `Op` step on handle `i` (up to the token table).  The others
+(`push_aslice`, sub-slice pushes, arena swap / take, `read_n` into the own arena, `new_from_slices`, `take`,
+`clone`, `drop`) are done here from the building blocks (`W.Pushed`, `W.World.pushHeld_total`,
+`W.World.readN_spec`, `W.IovInv.set_arena`): the arena-swapping ones with the world-level arena invariant
+`ArenaInv.below`, `push_aslice` with `APriv` (no detached slice covers a pending placeholder range:
+`Proofs/IovecWPriv.lean`) — the pushed slice MAY overlap slices the iovec already holds.
 -/
 import Woodpile.Proofs.IovecWPriv
 
